@@ -298,6 +298,12 @@ func (b *bufferWriter) expectBody(r *http.Request) bool {
 }
 
 func (b *bufferWriter) Close() error {
+	// WriterOnce.Close closes a spill file but leaves it on disk; only a reader obtained from the
+	// writer removes it. When the response was never read back (over the limit, a body-less response kind,
+	// a discarded attempt, a panic or a hijack downstream) take the reader here just to dispose of the file.
+	if rdr, err := b.buffer.Reader(); err == nil {
+		return rdr.Close()
+	}
 	return b.buffer.Close()
 }
 
